@@ -167,6 +167,7 @@ def oracle(ctx, deep):
     for key, fname in (("agilewords", "agwordlist.txt"), ("agilesyllables", "agsyllables.txt")):
         n, dig, lines = file_digest(fname)
         need(key, "%d,%s" % (n, dig), "exported list vs testdata/%s" % fname)
+        need(key + "_after_use", "%d,%s" % (n, dig), "exported list vs testdata/%s after the slice was handed to NewWordList and used" % fname)
         if len(set(lines)) != len(lines) or any((not w) or (not w.isascii()) or (not w.islower()) or (not w.isalpha()) for w in lines):
             ctx.violations.append({"line": "builtin", "finding_key": "C16-list", "what": "testdata/%s is not duplicate-free lower-case a-z" % fname})
 
